@@ -51,7 +51,7 @@ type PropSpec struct {
 	Assumptions []string  `json:"assumptions"`
 	Stubs       []string  `json:"stubs"`
 	Outside     []string  `json:"outside"`
-	Validate    int       `json:"validate"` // passing paths to validate natively per run (quick)
+	Validate    int       `json:"validate"`     // passing paths to validate natively per run (quick)
 	UnreachedOK []string  `json:"unreached_ok"` // labels of shared helpers that belong to modes this property does not run
 }
 
@@ -918,7 +918,7 @@ func crossCheck(dir string) map[string]*crossStat {
 func writeEvidenceFailure(prop, tier string, seed int64, ps *PropSpec, reason string, wall float64) {
 	ev := map[string]any{
 		"property_id": prop, "tier": tier, "seed": seed, "level": "other",
-		"coverage": map[string]any{"explanation": "check was inconclusive: " + reason, "evaluations": 0, "distinct_nontrivial": 0},
+		"coverage":    map[string]any{"explanation": "check was inconclusive: " + reason, "evaluations": 0, "distinct_nontrivial": 0},
 		"assumptions": ps.Assumptions, "wall_s": wall, "violations": 0,
 	}
 	writeJSON(filepath.Join(evidenceDir(), prop+".json"), ev)
@@ -982,18 +982,18 @@ func buildEvidence(prop, tier string, seed int64, ps *PropSpec, results []runRes
 	cov := map[string]any{
 		"states": states, "transitions": transitions, "traces_validated_against_impl": validated,
 		"traces_validation_attempted": validationsTried,
-		"samples": samples, "obligations": obligations, "discharged": discharged,
-		"exhaustive": len(inconclusive) == 0 && len(reachFail) == 0,
+		"samples":                     samples, "obligations": obligations, "discharged": discharged,
+		"exhaustive":        len(inconclusive) == 0 && len(reachFail) == 0,
 		"functions_encoded": fenc, "bounds": bounds, "reach_witnesses": reach,
 		"unwinding_failures": countPrefix(inconclusive, "unwinding failure"),
-		"solver": "z3 4.8.12 (incremental, one process per worker; unknown results re-decided one-shot)",
-		"solver_time_s": float64(st.Nanos) / 1e9, "queries": st.Queries, "queries_sat": st.SatN, "queries_unsat": st.UnsatN,
+		"solver":             "z3 4.8.12 (incremental, one process per worker; unknown results re-decided one-shot)",
+		"solver_time_s":      float64(st.Nanos) / 1e9, "queries": st.Queries, "queries_sat": st.SatN, "queries_unsat": st.UnsatN,
 		"queries_unknown": st.UnknownN, "solver_errors": st.Errors, "oneshot_fallbacks": st.Fallbacks,
 		"cross_solvers": cross, "stubs": ps.Stubs, "outside_claim": ps.Outside, "runs": perRun,
 		"interpreted_instructions": steps, "symbolic_mul_div": nmul,
 		"known_findings_reproduced": kn, "encoding_mismatches": mismatches, "inconclusive": inconclusive, "unreached_assertions": reachFail,
 		"evaluations": states, "distinct_nontrivial": states,
-		"rule": "one evaluation = one completed symbolic path of a harness over the real SSA of /repo; paths are distinct by construction (distinct decision sequences) and each one reached at least one obligation or ended in a checked assumption",
+		"rule":        "one evaluation = one completed symbolic path of a harness over the real SSA of /repo; paths are distinct by construction (distinct decision sequences) and each one reached at least one obligation or ended in a checked assumption",
 		"checker_cmd": fmt.Sprintf("./check %s %s", prop, tier),
 	}
 	return map[string]any{
